@@ -393,7 +393,14 @@ def run(ctx):
     nf, fv = f_part(ctx)
     viols += fv
     ncalls += nf
-    cov = {"fd_closing_runs": nf, "evaluations": ncalls, "distinct_nontrivial": len({repr(c) for c in cases if c["socks"]}),
+    sres = {"violations": [], "coverage": {"executions": 0}}
+    if not ctx.alt:
+        from vf.checks import c11s
+        ctx.close()
+        sres = c11s.run_s(ctx)
+        viols += sres["violations"]
+        ncalls += sres["coverage"]["executions"]
+    cov = {"schedules": sres["coverage"], "fd_closing_runs": nf, "evaluations": ncalls, "distinct_nontrivial": len({repr(c) for c in cases if c["socks"]}),
            "rule": "one case = one socket table (rendered from network-order bytes) + holder map; each case is queried system-wide and "
                    "per process for the listed kinds (evaluations = calls made); distinct_nontrivial = distinct non-empty tables",
            "tables": len(cases), "exhaustive": True, "samples": sample(cases, 5),
@@ -406,6 +413,9 @@ def run(ctx):
 
 
 def replay(ctx, case):
+    if isinstance(case, dict) and case.get("part") == "S":
+        from vf.checks import c11s
+        return c11s.replay_s(ctx, case)
     if "f" in case:
         r = f_run((ctx.seed, tuple(tuple(x) for x in case["f"][0]), case["f"][1]))
         return {"violated": bool(r["bad"]), "viols": r["bad"]}
